@@ -10,6 +10,7 @@ mod cli;
 mod ledger;
 mod impgen;
 mod c17;
+mod c16;
 
 pub struct Opts {
     pub seed: u64,
@@ -72,6 +73,7 @@ fn main() {
         "c02" => c02::run(&o, "C02"),
         "c03" => c02::run(&o, "C03"),
         "c17" => c17::run(&o),
+        "c16" => c16::run(&o),
         _ => {
             eprintln!("unknown property {}", prop);
             std::process::exit(2);
